@@ -1,0 +1,17 @@
+//go:build verif
+
+package bridgefingerprint
+
+// Machine-checked contracts (read by /verif/engine; comment-only, compiled only with -tags verif).
+//@ default model int
+//
+// A fingerprint is 20 or 32 bytes, nothing else.
+//@ func FingerprintFromBytes(bytes []byte) (f Fingerprint, err error)
+//@   props C12, C02
+//@   ensures {only-20-or-32-bytes} (err == nil) <==> (len(bytes) == 20 || len(bytes) == 32)
+//@   ensures err != nil ==> err == ErrBridgeFingerprintInvalid && f == ""
+//@   ensures err == nil ==> len(f) == len(bytes)
+//
+//@ func FingerprintFromHexString(hexString string) (f Fingerprint, err error)
+//@   props C12
+//@   ensures {hex-of-20-or-32-bytes} err == nil ==> len(f) == 20 || len(f) == 32
